@@ -189,19 +189,30 @@ api_mul(unsigned char *G, size_t Glen,
 	uint16_t a[19], aa[18], b[19], bb[18];
 	uint16_t c[18], d[18], e[18], da[18], cb[18];
 	unsigned char k[32];
-	uint32_t swap;
+	uint32_t swap, kz;
 	int i;
 
 	(void)curve;
 
 	/*
 	 * Points are encoded over exactly 32 bytes. Multipliers must fit
-	 * in 32 bytes as well.
+	 * in 32 bytes as well (not counting leading bytes of value zero).
 	 * RFC 7748 mandates that the high bit of the last point byte must
 	 * be ignored/cleared.
 	 */
-	if (Glen != 32 || kblen > 32) {
+	if (Glen != 32) {
 		return 0;
+	}
+
+	/*
+	 * The unsigned big-endian encoding of the multiplier may use
+	 * extra leading bytes of value zero, as with the other curves.
+	 */
+	kz = 0;
+	while (kblen > 32) {
+		kz |= pgm_read_byte(kb);
+		kb ++;
+		kblen --;
 	}
 	G[31] &= 0x7F;
 
@@ -347,7 +358,7 @@ api_mul(unsigned char *G, size_t Glen,
 
 	br_i15_encode(G, 32, x2);
 	byteswap(G);
-	return 1;
+	return EQ(kz, 0);
 
 #undef ILEN
 }
